@@ -514,3 +514,59 @@ def build_pass(rules, base=0, flags=0, max_loop=5, min_pre=0, max_pre=0, pconstr
     if fix:
         fix(off, b)
     return bytes(b)
+
+
+def gen_rules_pass(r, lims):
+    """-> (passtype, sub-table base, pass bytes): a pass built from 1..6 generated rules (codes from `gen_code`, made consistent with the rule's own
+    pre-context and length), usually with one of the numbers `Pass::readRules` tests changed: a sort key, a pre-context length, a code
+    offset, the pre-context bounds of the pass, a rule-map entry"""
+    pt = r.choice([1, 2, 2, 3, 3, 4])
+    n = r.randrange(1, 7)
+    rules = []
+    for _ in range(n):
+        for _try in range(20):
+            c, _pt, pre, rl, code = gen_code(r, lims)
+            if not c and 0 < rl <= 63 and pre < rl:
+                break
+        else:
+            pre, rl, code = 0, 1, bytes([49])
+        cons = b""
+        if r.random() < 0.5:
+            for _try in range(20):
+                c, _pt, pre2, rl2, ccode = gen_code(r, lims)
+                if c:
+                    cons = ccode
+                    break
+        rules.append((pre, rl, cons, code if r.random() < 0.9 else b""))
+    pres = [x[0] for x in rules]
+    min_pre, max_pre = min(pres), max(pres)
+    pcons = b""
+    if r.random() < 0.25:
+        for _try in range(20):
+            c, _pt, pre2, rl2, ccode = gen_code(r, lims)
+            if c:
+                pcons = ccode
+                break
+    k = r.random()
+
+    def fix(off, b):
+        m = r.random()
+        i = r.randrange(n)
+        if m < 0.25:
+            o = off["sort"] + 2 * i
+            b[o:o + 2] = struct.pack(">H", r.choice([0, 1, 63, 64, 65, 255, 0xFFFF, rules[i][0], rules[i][0] + 1]))
+        elif m < 0.45:
+            b[off["pre"] + i] = r.choice([0, 1, rules[i][1], max(0, rules[i][1] - 1), 255, max_pre + 1, max(0, min_pre - 1)])
+        elif m < 0.75:
+            o = off[r.choice(["oc", "oa"])] + 2 * r.randrange(n + 1)
+            v = struct.unpack(">H", b[o:o + 2])[0]
+            b[o:o + 2] = struct.pack(">H", r.choice([0, 1, v + 1, max(0, v - 1), v + 2, 0xFFFF, r.randrange(0, 40)]) & 0xFFFF)
+        elif m < 0.85:
+            o = off["sort"] - 2 * (max_pre - min_pre + 1) - 2
+            b[o], b[o + 1] = r.choice([(min_pre + 1, max_pre + 1), (min_pre, max(min_pre, max_pre - 1)), (0, 255)]) if min_pre + 1 <= 255 else (0, 255)
+        else:
+            j = off["sort"] - 2 * (max_pre - min_pre + 1) - 2 - 2 * n + 2 * r.randrange(n)
+            b[j:j + 2] = struct.pack(">H", r.choice([n, n + 1, 0xFFFF, 0]))
+
+    base = r.choice([0, 0, 100, 215])
+    return pt, base, build_pass(rules, base=base, min_pre=min_pre, max_pre=max_pre, pconstraint=pcons, fix=fix if k < 0.6 else None)
